@@ -398,7 +398,7 @@ def case_list(tier: str):
     N = 4 if tier == "quick" else 5
     out = []
     strs = list(gen.plain_specs(N)) + list(gen.plain_specs(N - 1, alphabet=UNI)) + list(gen.eqpair_specs(N)) + list(gen.explicit_id_specs(N))
-    strs += list(c05.idclone_specs(N, ids=("id7", 0, "", "007")))  # "007": a str id that looks like a number stays a str
+    strs += list(c05.idclone_specs(N, ids=("id7", 0, "", "007", "a")))  # "007": a str id that looks like a number stays a str
     out += [("str", s) for s in strs]
     # *different* data filed under one explicit data_id (set_data(new, data_id=same, with_clones=False) / an id hook keyed by
     # a guid leads there): every node keeps its own data, the group is still one clone group
@@ -473,7 +473,7 @@ def run(prop: str, tier: str, only=None) -> Result:
     N = 4 if tier == "quick" else 5
     res.bounds["Tree.to_dict_list / Node.to_dict / Tree.from_dict / Node.from_dict"] = (
         f"{len(cases)} trees, exhaustive: string trees <= {N} nodes over {{a,b,c}} with clones at every position, unicode labels <= {N - 1}, equal data under ids 1/2 <= {N}, "
-        f"one explicit id <= {N}, explicit-id clone groups (ids 'id7', 0, '', '007') <= {N}; frozen-dataclass trees <= {N} with three inverse mapper pairs "
+        f"one explicit id <= {N}, explicit-id clone groups (ids 'id7', 0, '', '007', and 'a' = the node's own string form) <= {N}; frozen-dataclass trees <= {N} with three inverse mapper pairs "
         f"(in-place / new dict / whole object inside 'data', no extra key) incl. explicit ids; falsy (empty-container) dataclass objects <= {N - 1} incl. explicit-id clone groups; identity-hashed objects keyed by guid (calc_data_id) <= {N}; int and tuple data without mapper <= {N - 1} "
         f"(structure only); each string/dataclass tree also after remove_children() of every inner node; round trip directly, through json.dumps/loads, and "
         f"through Node.from_dict below a childless node; {len(_emptied())} emptied trees"
